@@ -87,6 +87,7 @@ def run(F, R):
     z12_mount_tag(F, R)
     z13_stream_ids(F, R)
     z15_sound_infos(F, R, M, roles)
+    z15b_cached_capabilities(F, R)
     if GPU in F.adts:
         z14_gpu_serialise(F, R, M, roles)
 
@@ -1025,6 +1026,48 @@ def z14_gpu_serialise(F, R, M, roles):
         R.check(ok, 'Z14', '%s:request-serialised' % b['id'], site(sg, c), 'the request parameter is written into the submitted buffer `%s` before submission' % sorted(send_f),
                 '%s submits buffer %s without first serialising its request parameter into it: the device receives whatever the buffer held before' % (b['name'], sorted(send_f)))
     R.count('gpu_request_helpers', n)
+
+
+def z15b_cached_capabilities(F, R):
+    """Stream capabilities returned to the caller equal what the device reported: a list cached in the sound driver whose contents a
+    public method hands out is only ever stored from the result of a device query - never a made-up value (an empty list stored
+    when the query failed would be reported as "the device has no streams")."""
+    snd = 'device::sound::VirtIOSound'
+    if snd not in F.adts:
+        return
+    cand = [f_['name'] for f_ in F.adts[snd]['variants'][0]['fields'] if f_['ty'].startswith('core::option::Option<alloc::vec::Vec<')]
+    handed = set()
+    for b in F.bodies.values():
+        if b.get('impl_adt') != snd or not b.get('pub') or b['kind'] != 'AssocFn' or not F.handwritten(b):
+            continue
+        sg = supergraph(F, b['id'], tag='flat', max_depth=0)
+        S = sg.sym
+        for r_ in sg.exits:
+            rv = S.local_value(r_, 0, 0)
+            if rv is None:
+                continue
+            for x in deep_subterms(S, rv):
+                if x[0] == 'loc':
+                    for pp in x[2]:
+                        if pp[0] == 'f' and pp[1] in cand and len(pp) > 2 and pp[2] == snd:
+                            handed.add(pp[1])
+    n = 0
+    for b in sorted(F.bodies.values(), key=lambda x: x['id']):
+        if b.get('impl_adt') != snd or b['kind'] != 'AssocFn' or not F.handwritten(b):
+            continue
+        sg = supergraph(F, b['id'], tag='flat', max_depth=0)
+        S = sg.sym
+        for nd in sg.nodes:
+            if nd.kind != 'assign' or not nd.d['place']['p'] or not isinstance(nd.d['place']['p'][-1], dict) or nd.d['place']['p'][-1].get('n') not in handed:
+                continue
+            v = S.rvalue(nd.id, nd.d['rv'])
+            n += 1
+            from_query = any(x[0] == 'call' and F.bodies.get(x[2], {}).get('impl_adt') == snd for x in deep_subterms(S, v))
+            R.check(from_query, 'Z15', '%s:%s:cached-from-device' % (b['id'], nd.d['place']['p'][-1]['n']), site(sg, nd),
+                    'the cached capability list is stored from a device query\'s result',
+                    '%s stores %s into `%s`, whose contents public methods return as the device\'s stream capabilities: not what the device reported '
+                    '(a failed query must be an error, not an empty list)' % (b['name'], fmt(v)[:60], nd.d['place']['p'][-1]['n']))
+    R.count('cached_capability_stores', n)
 
 
 def z15_sound_infos(F, R, M, roles):
